@@ -117,10 +117,15 @@ func (m *memEventBus) publishTopic(name string, src <-chan cmtrpctypes.ResultEve
 		msg, ok := <-src
 		verifhook.At("publishTopic", "recv", name, src, ok)
 		if !ok {
-			m.closeAllSubscribers(name)
+			// the topic may have been removed and registered again with another source since this
+			// source was closed: its subscribers and its registration are not this goroutine's to drop
 			m.topicsMux.Lock()
-			verifhook.At("bus", "delTopic", name, src)
-			delete(m.topics, name)
+			verifhook.At("bus", "closed.locked", name, src)
+			if cur, registered := m.topics[name]; !registered || cur == src {
+				m.closeAllSubscribers(name)
+				verifhook.At("bus", "delTopic", name, src)
+				delete(m.topics, name)
+			}
 			m.topicsMux.Unlock()
 			return
 		}
